@@ -111,7 +111,9 @@ class QTensorLinear(torch.autograd.Function):
             )
         elif isinstance(other, QBytesTensor):
             if isinstance(input, QBytesTensor):
-                output = torch.ops.quanto.qbytes_mm(input._data, other._data, input._scale * other._scale)
+                # The product of the scales is evaluated in float32: it can underflow in float16
+                output_scales = input._scale.to(torch.float32) * other._scale.to(torch.float32)
+                output = torch.ops.quanto.qbytes_mm(input._data, other._data, output_scales).to(input._scale.dtype)
             else:
                 output = torch.ops.quanto.qbytes_mm(input, other._data, other._scale)
         else:
